@@ -125,3 +125,43 @@ def apply_bounded_registry():
         ct = CONTRACTS.get(cid)
         if ct is not None and not ct.bounded:
             ct.bounded = dict(desc)
+
+
+DISCHARGED = {}      # cid of a trusted summary -> cid of the proved contract that states the same clauses on the same function
+
+
+def apply_discharges():
+    """A proved contract Y with ghost["discharges"] == X (X a trusted summary used at call sites) turns X from an assumption into a
+    proved statement - accepted only if this mechanical test holds: same file and function, every (label, text) clause of X is a clause
+    of Y, Y requires nothing X does not require, Y's frame is no larger than X's, X admits every exception Y admits. Y is then also
+    verified (and counted) in the check of every property X belongs to, so a run that relies on X re-proves X's clauses from the body."""
+    DISCHARGED.clear()
+    for y in CONTRACTS.values():
+        xid = y.ghost.get("discharges")
+        if not xid or y.trusted:
+            continue
+        x = CONTRACTS.get(xid)
+        if x is None or not x.trusted or (x.file, x.func) != (y.file, y.func):
+            continue
+        norm = lambda s: " ".join(str(s).split())
+        if not all(k in y.ensures and norm(y.ensures[k]) == norm(v) for k, v in x.ensures.items()):
+            continue
+        if not {norm(r) for r in y.requires} <= {norm(r) for r in x.requires}:
+            continue
+        if not {norm(m) for m in y.modifies} <= {norm(m) for m in x.modifies}:
+            continue
+        if not set(y.raises) <= set(x.raises):
+            continue
+        if x.params and y.params and {k: norm(v) for k, v in x.params.items()} != {k: norm(v) for k, v in y.params.items()}:
+            continue
+        if norm(x.returns) != norm(y.returns) or any(norm(y.lets.get(k)) != norm(v) for k, v in x.lets.items()):
+            continue
+        if any(k != "not_at_call_sites" and y.ghost.get(k) != v for k, v in x.ghost.items()):
+            continue        # ghost effects a caller would assume must be the ones the proof is about
+        scalar = ("None", "Int", "Bool", "Str", "Float", "Char", "Opt[Int]", "Opt[Str]", "Opt[Bool]", "Opt[Float]")
+        if x.fresh_result and norm(x.returns) not in scalar and not any("fresh(result)" in norm(v) for v in y.ensures.values()):
+            continue        # callers treat the summary's result as owned by them: that has to be a proved clause
+        DISCHARGED[xid] = y.cid
+        for p in [x.prop] + list(x.also):
+            if p != y.prop and p not in y.also:
+                y.also.append(p)
